@@ -16,7 +16,8 @@ open CprocVerif.LowerArith CprocVerif.LowerMach
 /-- No statement follows a `return`/`break`/`continue` in the same block; the third clause of `for` is
     an expression statement. -/
 def noDead : Stmt → Bool
-  | .seq a b => !a.endsJump && noDead a && noDead b
+  | .seq a b => (!a.endsJump || b.startsLabel) && noDead a && noDead b
+  | .switch_ _ b => b.startsLabel && noDead b
   | .ite _ a => noDead a
   | .itee _ a b => noDead a && noDead b
   | .while_ _ b => noDead b
@@ -33,6 +34,7 @@ def declTys : Stmt → List CSem.Ty
   | .while_ _ b => declTys b
   | .dowhile b _ => declTys b
   | .for_ _ st b => declTys b ++ declTys st
+  | .switch_ _ b => declTys b
   | _ => []
 
 /-! ## Without a pending jump `funcopen` does nothing -/
@@ -121,6 +123,37 @@ theorem itemLabels_single_ins (i : Ins) : itemLabels [Item.ins i] = [] := rfl
 theorem curOf_nil_append (ol : Open) (pre : List Item) : curOf ol (pre ++ []) = curOf ol pre := by
   rw [List.append_nil]
 
+/-- counters and labels of the `casesearch` ladder -/
+theorem ladder_good (w : Bool) (v : Val) (lab : Nat → String) (dl : String) (t : Tree.T) :
+    ∀ c : Ctx, c.lastid ≤ (ladder w v lab dl t c).2.lastid ∧ c.blockid ≤ (ladder w v lab dl t c).2.blockid ∧
+      LabelsIn (fun j => c.blockid < j ∧ j ≤ (ladder w v lab dl t c).2.blockid)
+        (itemLabels (ladder w v lab dl t c).1) := by
+  induction t with
+  | nil => intro c; exact ⟨Nat.le_refl _, Nat.le_refl _, LabelsIn.nil _⟩
+  | node k h l r ihl ihr =>
+    intro c
+    simp only [ladder]
+    have gl := ihl ⟨c.lastid + 2, c.blockid + 3, lblName "switch_lt" (c.blockid + 2)⟩
+    generalize hL : ladder w v lab dl l ⟨c.lastid + 2, c.blockid + 3, lblName "switch_lt" (c.blockid + 2)⟩ = L
+      at gl ⊢
+    have gr := ihr ⟨L.2.lastid, L.2.blockid, lblName "switch_gt" (c.blockid + 3)⟩
+    generalize hR : ladder w v lab dl r ⟨L.2.lastid, L.2.blockid, lblName "switch_gt" (c.blockid + 3)⟩ = R
+      at gr ⊢
+    obtain ⟨l1, b1, g1⟩ := gl
+    obtain ⟨l2, b2, g2⟩ := gr
+    dsimp only at l1 b1 g1 l2 b2 g2
+    refine ⟨by omega, by omega, ?_⟩
+    simp only [List.cons_append, List.nil_append, itemLabels, itemLabels_append]
+    have h0 := ((((LabelsIn.single (S := fun j => j = c.blockid + 1) "switch_ne" _ rfl).append
+      (LabelsIn.single (S := fun j => j = c.blockid + 2) "switch_lt" _ rfl) ?_).append g1 ?_).append
+      (LabelsIn.single (S := fun j => j = c.blockid + 3) "switch_gt" _ rfl) ?_).append g2 ?_
+    · refine LabelsIn.weaken (by simpa using h0) ?_
+      intro j h; omega
+    · intro j h1 h2; omega
+    · intro j h1 h2; omega
+    · intro j h1 h2; omega
+    · intro j h1 h2; omega
+
 /-- the part of `for` after its head (condition and branch, or nothing) -/
 theorem for_good (cs : Bool) (e : Option Expr) (step b : Stmt)
     (ihs : ∀ (brk cont : String) (c : SCtx), c.jump = none → SGood step c (funcstmt cs brk cont step c))
@@ -147,7 +180,7 @@ theorem for_good (cs : Bool) (e : Option Expr) (step b : Stmt)
             (lblName "for_cont" (c.blockid + 3)) b hd.2).ctx.atLabel (lblName "for_cont" (c.blockid + 3)))).allocs,
         (funcstmt cs brk cont step ((funcstmt cs (lblName "for_join" (c.blockid + 4))
             (lblName "for_cont" (c.blockid + 3)) b hd.2).ctx.atLabel
-            (lblName "for_cont" (c.blockid + 3)))).ctx.atLabel (lblName "for_join" (c.blockid + 4))⟩ := by
+            (lblName "for_cont" (c.blockid + 3)))).ctx.atLabel (lblName "for_join" (c.blockid + 4)), [], none⟩ := by
   have gb := ihb (lblName "for_join" (c.blockid + 4)) (lblName "for_cont" (c.blockid + 3)) hd.2 hjmp
   generalize hob : funcstmt cs (lblName "for_join" (c.blockid + 4)) (lblName "for_cont" (c.blockid + 3)) b
     hd.2 = ob at gb ⊢
@@ -200,15 +233,26 @@ theorem for_good (cs : Bool) (e : Option Expr) (step b : Stmt)
   · show ob.allocs ++ os.allocs = _
     rw [hb4, hs4, declTys, List.zipWith_append hb2.symm]
 
-theorem funcstmt_good (cs : Bool) (st : Stmt) : ∀ (brk cont : String) (c : SCtx), c.jump = none →
+theorem funcstmt_good' (cs : Bool) (st : Stmt) : ∀ (brk cont : String) (c : SCtx),
+    (c.jump = none ∨ st.startsLabel = true) →
     noDead st = true → SGood st c (funcstmt cs brk cont st c) := by
   induction st with
   | skip =>
-    intro brk cont c hj _
+    intro brk cont c hj0 _
+    have hj : c.jump = none := by
+      rcases hj0 with h | h
+      · exact h
+      · simp [Stmt.startsLabel] at h
+    clear hj0
     exact ⟨Nat.le_refl _, Nat.le_refl _, LabelsIn.nil _, fun ol pre h => by simpa [funcstmt] using h,
       id, fun _ => hj, fun new h => sorted_of_eq (new' := []) (by rw [List.append_nil]; exact h) List.Pairwise.nil, [], by simp [funcstmt], rfl, by simp, rfl⟩
   | decl i t init =>
-    intro brk cont c hj _
+    intro brk cont c hj0 _
+    have hj : c.jump = none := by
+      rcases hj0 with h | h
+      · exact h
+      · simp [Stmt.startsLabel] at h
+    clear hj0
     cases init with
     | none =>
       refine ⟨Nat.le_succ _, Nat.le_refl _, LabelsIn.nil _, fun ol pre h => by simpa [funcstmt] using h,
@@ -238,7 +282,12 @@ theorem funcstmt_good (cs : Bool) (st : Stmt) : ∀ (brk cont : String) (c : SCt
         simp only [upd_lastid]
         omega
   | assign i t e =>
-    intro brk cont c hj _
+    intro brk cont c hj0 _
+    have hj : c.jump = none := by
+      rcases hj0 with h | h
+      · exact h
+      · simp [Stmt.startsLabel] at h
+    clear hj0
     have g := exprOut_good cs c e
     simp only [funcstmt, lowerE_eq cs hj]
     refine ⟨g.lastid, g.blockid, ?_, ?_, g.curOK, fun _ => hj, fun new h => sorted_of_eq (new' := []) (by rw [List.append_nil]; exact h) List.Pairwise.nil, [], by simp, rfl, by simp, rfl⟩
@@ -248,7 +297,12 @@ theorem funcstmt_good (cs : Bool) (st : Stmt) : ∀ (brk cont : String) (c : SCt
       rw [← List.append_assoc, storeIns, curOf_ins]
       exact g.cur ol pre hp
   | incdec i t inc =>
-    intro brk cont c hj _
+    intro brk cont c hj0 _
+    have hj : c.jump = none := by
+      rcases hj0 with h | h
+      · exact h
+      · simp [Stmt.startsLabel] at h
+    clear hj0
     simp only [funcstmt, funcopen_none hj, List.nil_append]
     have s1 := funcinst_straight c.ctx (.load (loadOf cs t)) (cls t) [.tmp (tmpName (c.slots.getD i 0))]
     have s2 := funcinst_straight (funcinst c.ctx (.load (loadOf cs t)) (cls t)
@@ -285,29 +339,42 @@ theorem funcstmt_good (cs : Bool) (st : Stmt) : ∀ (brk cont : String) (c : SCt
       simp only [ctx_cur, ctx_blockid] at h1 h2
       exact ⟨name, j, by simp only [upd_ctx]; rw [c3, c2, c1, h1], by unf; omega⟩
   | expr e =>
-    intro brk cont c hj _
+    intro brk cont c hj0 _
+    have hj : c.jump = none := by
+      rcases hj0 with h | h
+      · exact h
+      · simp [Stmt.startsLabel] at h
+    clear hj0
     have g := exprOut_good cs c e
     simp only [funcstmt, lowerE_eq cs hj]
     exact ⟨g.lastid, g.blockid, g.labels, g.cur, g.curOK, fun _ => hj, fun new h => sorted_of_eq (new' := []) (by rw [List.append_nil]; exact h) List.Pairwise.nil, [], by simp, rfl, by simp, rfl⟩
   | ret e =>
-    intro brk cont c hj _
+    intro brk cont c hj0 _
+    have hj : c.jump = none := by
+      rcases hj0 with h | h
+      · exact h
+      · simp [Stmt.startsLabel] at h
+    clear hj0
     have g := exprOut_good cs c e
     simp only [funcstmt, lowerE_eq cs hj]
     exact ⟨g.lastid, g.blockid, g.labels, g.cur, g.curOK, fun h => by simp [Stmt.endsJump] at h, fun new h => sorted_of_eq (new' := []) (by rw [List.append_nil]; exact h) List.Pairwise.nil,
       [], by simp, rfl, by simp, rfl⟩
   | seq a b iha ihb =>
     intro brk cont c hj hnd
-    simp only [noDead, Bool.and_eq_true, Bool.not_eq_true'] at hnd
+    simp only [noDead, Bool.and_eq_true, Bool.or_eq_true, Bool.not_eq_true'] at hnd
     obtain ⟨⟨hea, hna⟩, hnb⟩ := hnd
-    have ga := iha brk cont c hj hna
-    have hja := ga.jump hea
-    have gb := ihb brk cont _ hja hnb
+    have ga := iha brk cont c (by simpa [Stmt.startsLabel] using hj) hna
+    have hjb : (funcstmt cs brk cont a c).ctx.jump = none ∨ b.startsLabel = true := by
+      rcases hea with h | h
+      · exact Or.inl (ga.jump h)
+      · exact Or.inr h
+    have gb := ihb brk cont _ hjb hnb
     simp only [funcstmt]
     obtain ⟨na, ha1, ha2, ha3, ha4⟩ := ga.slots
     obtain ⟨nb, hb1, hb2, hb3, hb4⟩ := gb.slots
     have la := ga.lastid; have lb := gb.lastid; have ba := ga.blockid; have bb := gb.blockid
-    refine ⟨by dsimp only; omega, by dsimp only; omega, ?_, ?_, fun h => gb.curOK (ga.curOK h), ?_,
-      ?_, na ++ nb, ?_, ?_, ?_, ?_⟩
+    refine ⟨by dsimp only; omega, by dsimp only; omega, ?_, ?_, fun h => gb.curOK (ga.curOK h), ?_, ?_,
+      na ++ nb, ?_, ?_, ?_, ?_⟩
     · rw [itemLabels_append]
       exact (ga.labels.append gb.labels (by intro j h1 h2; omega)).weaken
         (by intro j h; dsimp only at h ⊢; omega)
@@ -331,7 +398,12 @@ theorem funcstmt_good (cs : Bool) (st : Stmt) : ∀ (brk cont : String) (c : SCt
       · have := hb3 sl h; omega
     · rw [ha4, hb4, declTys, List.zipWith_append ha2.symm]
   | ite e a iha =>
-    intro brk cont c hj hnd
+    intro brk cont c hj0 hnd
+    have hj : c.jump = none := by
+      rcases hj0 with h | h
+      · exact h
+      · simp [Stmt.startsLabel] at h
+    clear hj0
     simp only [noDead] at hnd
     have ge := exprOut_good cs c e
     simp only [funcstmt, lowerE_eq cs hj]
@@ -340,7 +412,7 @@ theorem funcstmt_good (cs : Bool) (st : Stmt) : ∀ (brk cont : String) (c : SCt
     have sj := jnzArg_straight cs ((c.upd (exprOut cs c e).ctx).addBlocks 2).ctx e.ty (exprOut cs c e).val
     have ga := iha brk cont (((c.upd (exprOut cs c e).ctx).addBlocks 2).upd
       (jnzOut cs ((c.upd (exprOut cs c e).ctx).addBlocks 2) e.ty (exprOut cs c e).val).ctx |>.atLabel
-        (lblName "if_true" ((c.upd (exprOut cs c e).ctx).blockid + 1))) rfl hnd
+        (lblName "if_true" ((c.upd (exprOut cs c e).ctx).blockid + 1))) (Or.inl rfl) hnd
     generalize hoe : exprOut cs c e = oe at ge sj ga ⊢
     change Straight _ (jnzOut cs ((c.upd oe.ctx).addBlocks 2) e.ty oe.val) at sj
     generalize hoj : jnzOut cs ((c.upd oe.ctx).addBlocks 2) e.ty oe.val = oj at sj ga ⊢
@@ -376,7 +448,12 @@ theorem funcstmt_good (cs : Bool) (st : Stmt) : ∀ (brk cont : String) (c : SCt
       unf
       have := ha3 sl hsl; omega
   | itee e a b iha ihb =>
-    intro brk cont c hj hnd
+    intro brk cont c hj0 hnd
+    have hj : c.jump = none := by
+      rcases hj0 with h | h
+      · exact h
+      · simp [Stmt.startsLabel] at h
+    clear hj0
     simp only [noDead, Bool.and_eq_true] at hnd
     have ge := exprOut_good cs c e
     simp only [funcstmt, lowerE_eq cs hj]
@@ -385,14 +462,14 @@ theorem funcstmt_good (cs : Bool) (st : Stmt) : ∀ (brk cont : String) (c : SCt
     have sj := jnzArg_straight cs ((c.upd (exprOut cs c e).ctx).addBlocks 2).ctx e.ty (exprOut cs c e).val
     have ga := iha brk cont (((c.upd (exprOut cs c e).ctx).addBlocks 2).upd
       (jnzOut cs ((c.upd (exprOut cs c e).ctx).addBlocks 2) e.ty (exprOut cs c e).val).ctx |>.atLabel
-        (lblName "if_true" ((c.upd (exprOut cs c e).ctx).blockid + 1))) rfl hnd.1
+        (lblName "if_true" ((c.upd (exprOut cs c e).ctx).blockid + 1))) (Or.inl rfl) hnd.1
     generalize hoe : exprOut cs c e = oe at ge sj ga ⊢
     change Straight _ (jnzOut cs ((c.upd oe.ctx).addBlocks 2) e.ty oe.val) at sj
     generalize hoj : jnzOut cs ((c.upd oe.ctx).addBlocks 2) e.ty oe.val = oj at sj ga ⊢
     generalize hoa : funcstmt cs brk cont a ((((c.upd oe.ctx).addBlocks 2).upd oj.ctx).atLabel
       (lblName "if_true" ((c.upd oe.ctx).blockid + 1))) = oa at ga ⊢
     have gb := ihb brk cont (((oa.ctx.addBlocks 1).setJump (.jmp (lblName "if_join" (oa.ctx.blockid + 1)))).atLabel
-      (lblName "if_false" ((c.upd oe.ctx).blockid + 2))) rfl hnd.2
+      (lblName "if_false" ((c.upd oe.ctx).blockid + 2))) (Or.inl rfl) hnd.2
     generalize hob : funcstmt cs brk cont b (((oa.ctx.addBlocks 1).setJump
       (.jmp (lblName "if_join" (oa.ctx.blockid + 1)))).atLabel
       (lblName "if_false" ((c.upd oe.ctx).blockid + 2))) = ob at gb ⊢
@@ -444,7 +521,12 @@ theorem funcstmt_good (cs : Bool) (st : Stmt) : ∀ (brk cont : String) (c : SCt
       · have := hb3 sl h; omega
     · rw [ha4, hb4, declTys, List.zipWith_append ha2.symm]
   | while_ e b ihb =>
-    intro brk cont c hj hnd
+    intro brk cont c hj0 hnd
+    have hj : c.jump = none := by
+      rcases hj0 with h | h
+      · exact h
+      · simp [Stmt.startsLabel] at h
+    clear hj0
     simp only [noDead] at hnd
     have hj1 : ((c.addBlocks 3).atLabel (lblName "while_cond" (c.blockid + 1))).jump = none := rfl
     have ge := exprOut_good cs ((c.addBlocks 3).atLabel (lblName "while_cond" (c.blockid + 1))) e
@@ -462,7 +544,7 @@ theorem funcstmt_good (cs : Bool) (st : Stmt) : ∀ (brk cont : String) (c : SCt
       oe.ctx) e.ty oe.val = oj at sj ⊢
     have gb := ihb (lblName "while_join" (c.blockid + 3)) (lblName "while_cond" (c.blockid + 1))
       (((((c.addBlocks 3).atLabel (lblName "while_cond" (c.blockid + 1))).upd oe.ctx).upd oj.ctx).atLabel
-        (lblName "while_body" (c.blockid + 2))) rfl hnd
+        (lblName "while_body" (c.blockid + 2))) (Or.inl rfl) hnd
     generalize hob : funcstmt cs (lblName "while_join" (c.blockid + 3)) (lblName "while_cond" (c.blockid + 1))
       b (((((c.addBlocks 3).atLabel (lblName "while_cond" (c.blockid + 1))).upd oe.ctx).upd oj.ctx).atLabel
         (lblName "while_body" (c.blockid + 2))) = ob at gb ⊢
@@ -499,10 +581,15 @@ theorem funcstmt_good (cs : Bool) (st : Stmt) : ∀ (brk cont : String) (c : SCt
       unf
       have := hb3 sl hsl; omega
   | dowhile b e ihb =>
-    intro brk cont c hj hnd
+    intro brk cont c hj0 hnd
+    have hj : c.jump = none := by
+      rcases hj0 with h | h
+      · exact h
+      · simp [Stmt.startsLabel] at h
+    clear hj0
     simp only [noDead] at hnd
     have gb := ihb (lblName "do_join" (c.blockid + 3)) (lblName "do_cond" (c.blockid + 2))
-      ((c.addBlocks 3).atLabel (lblName "do_body" (c.blockid + 1))) rfl hnd
+      ((c.addBlocks 3).atLabel (lblName "do_body" (c.blockid + 1))) (Or.inl rfl) hnd
     simp only [funcstmt]
     generalize hob : funcstmt cs (lblName "do_join" (c.blockid + 3)) (lblName "do_cond" (c.blockid + 2)) b
       ((c.addBlocks 3).atLabel (lblName "do_body" (c.blockid + 1))) = ob at gb ⊢
@@ -553,14 +640,19 @@ theorem funcstmt_good (cs : Bool) (st : Stmt) : ∀ (brk cont : String) (c : SCt
       unf
       have := hb3 sl hsl; omega
   | for_ e step b ihs ihb =>
-    intro brk cont c hj hnd
+    intro brk cont c hj0 hnd
+    have hj : c.jump = none := by
+      rcases hj0 with h | h
+      · exact h
+      · simp [Stmt.startsLabel] at h
+    clear hj0
     simp only [noDead, Bool.and_eq_true] at hnd
     have hsn : noDead step = true := by
       cases step <;> simp [Stmt.isSimple] at hnd <;> rfl
     cases e with
     | none =>
       simp only [funcstmt]
-      exact for_good cs none step b (fun br co c' h => ihs br co c' h hsn) (fun br co c' h => ihb br co c' h hnd.2)
+      exact for_good cs none step b (fun br co c' h => ihs br co c' (Or.inl h) hsn) (fun br co c' h => ihb br co c' (Or.inl h) hnd.2)
         brk cont c ([Item.lbl none (lblName "for_body" (c.blockid + 2)) []],
           ((c.addBlocks 4).atLabel (lblName "for_cond" (c.blockid + 1))).atLabel
             (lblName "for_body" (c.blockid + 2)))
@@ -584,8 +676,8 @@ theorem funcstmt_good (cs : Bool) (st : Stmt) : ∀ (brk cont : String) (c : SCt
       have l1 := ge.lastid; have l2 := sj.lastid
       have b1 := ge.blockid; have b2 := sj.blockid
       unf at l1 l2 b1 b2
-      refine for_good cs (some e) step b (fun br co c' h => ihs br co c' h hsn)
-        (fun br co c' h => ihb br co c' h hnd.2) brk cont c
+      refine for_good cs (some e) step b (fun br co c' h => ihs br co c' (Or.inl h) hsn)
+        (fun br co c' h => ihb br co c' (Or.inl h) hnd.2) brk cont c
         (oe.items ++ oj.items ++ [Item.lbl (some (.jnz oj.val (lblName "for_body" (c.blockid + 2))
           (lblName "for_join" (c.blockid + 4)))) (lblName "for_body" (c.blockid + 2)) []],
          ((((c.addBlocks 4).atLabel (lblName "for_cond" (c.blockid + 1))).upd oe.ctx).upd oj.ctx).atLabel
@@ -597,12 +689,103 @@ theorem funcstmt_good (cs : Bool) (st : Stmt) : ∀ (brk cont : String) (c : SCt
         unf at h ⊢
         omega
   | break_ =>
-    intro brk cont c hj _
+    intro brk cont c hj0 _
+    have hj : c.jump = none := by
+      rcases hj0 with h | h
+      · exact h
+      · simp [Stmt.startsLabel] at h
+    clear hj0
     exact ⟨Nat.le_refl _, Nat.le_refl _, LabelsIn.nil _, fun ol pre h => by simpa [funcstmt] using h,
       id, fun h => by simp [Stmt.endsJump] at h, fun new h => sorted_of_eq (new' := []) (by rw [List.append_nil]; exact h) List.Pairwise.nil, [], by simp [funcstmt], rfl, by simp, rfl⟩
   | continue_ =>
-    intro brk cont c hj _
+    intro brk cont c hj0 _
+    have hj : c.jump = none := by
+      rcases hj0 with h | h
+      · exact h
+      · simp [Stmt.startsLabel] at h
+    clear hj0
     exact ⟨Nat.le_refl _, Nat.le_refl _, LabelsIn.nil _, fun ol pre h => by simpa [funcstmt] using h,
       id, fun h => by simp [Stmt.endsJump] at h, fun new h => sorted_of_eq (new' := []) (by rw [List.append_nil]; exact h) List.Pairwise.nil, [], by simp [funcstmt], rfl, by simp, rfl⟩
+  | case_ u =>
+    intro brk cont c _ _
+    simp only [funcstmt]
+    refine ⟨Nat.le_refl _, by unf; omega, ?_, ?_, ?_, fun _ => rfl,
+      fun new h => sorted_of_eq (new' := []) (by rw [List.append_nil]; exact h) List.Pairwise.nil,
+      [], by unf; simp, rfl, by simp, rfl⟩
+    · simp only [itemLabels, labelItem]
+      exact (LabelsIn.single "switch_case" _ (by unf; omega))
+    · intro ol pre hp
+      exact curOf_lbl _ _ _ _ _
+    · intro _
+      unf
+      exact curOK_label "switch_case" _ _ _ (Nat.le_refl _)
+  | default_ =>
+    intro brk cont c _ _
+    simp only [funcstmt]
+    refine ⟨Nat.le_refl _, by unf; omega, ?_, ?_, ?_, fun _ => rfl,
+      fun new h => sorted_of_eq (new' := []) (by rw [List.append_nil]; exact h) List.Pairwise.nil,
+      [], by unf; simp, rfl, by simp, rfl⟩
+    · simp only [itemLabels, labelItem]
+      exact (LabelsIn.single "switch_default" _ (by unf; omega))
+    · intro ol pre hp
+      exact curOf_lbl _ _ _ _ _
+    · intro _
+      unf
+      exact curOK_label "switch_default" _ _ _ (Nat.le_refl _)
+  | switch_ e b ihb =>
+    intro brk cont c hj0 hnd
+    have hj : c.jump = none := by
+      rcases hj0 with h | h
+      · exact h
+      · simp [Stmt.startsLabel] at h
+    clear hj0
+    simp only [noDead, Bool.and_eq_true] at hnd
+    have hj1 : (c.addBlocks 2).jump = none := hj
+    have ge := exprOut_good cs (c.addBlocks 2) e
+    simp only [funcstmt, lowerE_eq cs hj1]
+    generalize hoe : exprOut cs (c.addBlocks 2) e = oe at ge ⊢
+    have gb := ihb (lblName "switch_join" (c.blockid + 2)) cont
+      (((c.addBlocks 2).upd oe.ctx).setJump (.jmp (lblName "switch_cond" (c.blockid + 1)))) (Or.inr hnd.1) hnd.2
+    generalize hob : funcstmt cs (lblName "switch_join" (c.blockid + 2)) cont b
+      (((c.addBlocks 2).upd oe.ctx).setJump (.jmp (lblName "switch_cond" (c.blockid + 1)))) = ob at gb ⊢
+    have gl := ladder_good (decide (e.ty.size ≤ 4)) oe.val
+      (caseLabel e.ty ob.cases (ob.dflt.getD (lblName "switch_join" (c.blockid + 2))))
+      (ob.dflt.getD (lblName "switch_join" (c.blockid + 2))) (switchTree e.ty ob.cases)
+      (((ob.ctx.setJump (.jmp (lblName "switch_join" (c.blockid + 2)))).atLabel
+        (lblName "switch_cond" (c.blockid + 1))).ctx)
+    generalize hlad : ladder (decide (e.ty.size ≤ 4)) oe.val
+      (caseLabel e.ty ob.cases (ob.dflt.getD (lblName "switch_join" (c.blockid + 2))))
+      (ob.dflt.getD (lblName "switch_join" (c.blockid + 2))) (switchTree e.ty ob.cases)
+      (((ob.ctx.setJump (.jmp (lblName "switch_join" (c.blockid + 2)))).atLabel
+        (lblName "switch_cond" (c.blockid + 1))).ctx) = lad at gl ⊢
+    have l1 := ge.lastid; have l3 := gb.lastid; have l4 := gl.1
+    have b1 := ge.blockid; have b3 := gb.blockid; have b4 := gl.2.1
+    obtain ⟨nb, hb1, hb2, hb3, hb4⟩ := gb.slots
+    unf at *
+    refine ⟨by unf; omega, by unf; omega, ?_, ?_, ?_, fun _ => rfl, fun new h => gb.sorted new h, nb, hb1,
+      by simpa [declTys] using hb2, ?_, by simpa [declTys] using hb4⟩
+    · simp only [itemLabels_append, itemLabels, labelItem, List.append_nil]
+      refine ((((ge.labels.append gb.labels ?_).append
+        (LabelsIn.single (S := fun j => j = c.blockid + 1) "switch_cond" _ rfl) ?_).append gl.2.2 ?_).append
+        (LabelsIn.single (S := fun j => j = c.blockid + 2) "switch_join" _ rfl) ?_).weaken ?_
+      · intro j h1 h2; unf at h1 h2; omega
+      · intro j h1 h2; unf at h1; omega
+      · intro j h1 h2; unf at h1 h2; omega
+      · intro j h1 h2; unf at h1; omega
+      · intro j h; unf at h ⊢; omega
+    · intro ol pre hp
+      simp only [← List.append_assoc]
+      exact curOf_lbl _ _ _ _ _
+    · intro _
+      unf
+      exact curOK_label "switch_join" _ _ _ (by omega)
+    · intro sl hsl
+      unf
+      have := hb3 sl hsl; omega
+
+/-- the statement starts in a block without pending jump -/
+theorem funcstmt_good (cs : Bool) (st : Stmt) (brk cont : String) (c : SCtx) (hj : c.jump = none)
+    (hnd : noDead st = true) : SGood st c (funcstmt cs brk cont st c) :=
+  funcstmt_good' cs st brk cont c (Or.inl hj) hnd
 
 end CprocVerif.LowerMach2
